@@ -331,6 +331,7 @@ class Propagator:
         self.polys.sort(key=lambda p: p[1])
         self.used = [None] * len(self.polys)   # None | ("def", class) | ("check", residual form)
         self.order = []                        # classes in derivation order
+        self.oracle_cells = []                 # classes whose constant value was supplied by the solver oracle
 
     def mono_form(self, k):
         return self.A.product([self.known[c] for c in k]) if k else cst(1)
@@ -345,8 +346,9 @@ class Propagator:
         return acc
 
     def solvable(self, i):
-        """(class, coeff) when polynomial i has exactly one unknown class and it occurs only as a bare linear
-        monomial; None otherwise"""
+        """(class, coeff) when polynomial i has exactly one unknown class, it occurs with degree one in each
+        of its monomials and every co-factor is a known CONSTANT; None otherwise. The polynomial is then
+        coeff * u + (known) = 0 with a unique solution for u."""
         _, _, mono, classes = self.polys[i]
         unk = [c for c in classes if c not in self.known]
         if len(unk) != 1:
@@ -355,32 +357,63 @@ class Propagator:
         coeff = 0
         for k, c in mono.items():
             if u in k:
-                if k != (u,):
+                if k.count(u) != 1:
                     return None
-                coeff = c
+                co = 1
+                for x in k:
+                    if x != u:
+                        v = const_of(self.known[x])
+                        if v is None:
+                            return None
+                        co = co * v % P
+                coeff = (coeff + c * co) % P
         return (u, coeff) if coeff else None
 
-    def run(self, rows=None):
-        """derive to a fixpoint (restricted to polynomials of the given rows when `rows` is set)"""
-        progress = True
-        while progress:
-            progress = False
+    def run(self, rows=None, oracle=None, max_oracle=60):
+        """derive to a fixpoint (restricted to polynomials of the given rows when `rows` is set). `oracle(class)`
+        may supply the value of a cell that the solver proved to be a determined constant (control logic
+        that unique-solution propagation cannot see through: quotient/remainder hints, range-checked limbs)."""
+        asked = set()
+        while True:
+            progress = True
+            while progress:
+                progress = False
+                for i, (gate, row, mono, classes) in enumerate(self.polys):
+                    if self.used[i] is not None or (rows is not None and row not in rows):
+                        continue
+                    if all(c in self.known for c in classes):
+                        self.used[i] = ("check", self.residual(i))
+                        continue
+                    sv = self.solvable(i)
+                    if sv is None:
+                        continue
+                    u, coeff = sv
+                    rest = self.residual(i, skip=u)
+                    self.known[u] = scale(rest, -pow(coeff, -1, P))
+                    self.defined_by[u] = i
+                    self.used[i] = ("def", u)
+                    self.order.append(u)
+                    progress = True
+            if oracle is None:
+                return
+            added = False
             for i, (gate, row, mono, classes) in enumerate(self.polys):
-                if self.used[i] is not None or (rows is not None and row not in rows):
+                if self.used[i] is not None:
                     continue
-                if all(c in self.known for c in classes):
-                    self.used[i] = ("check", self.residual(i))
-                    continue
-                sv = self.solvable(i)
-                if sv is None:
-                    continue
-                u, coeff = sv
-                rest = self.residual(i, skip=u)
-                self.known[u] = scale(rest, -pow(coeff, -1, P))
-                self.defined_by[u] = i
-                self.used[i] = ("def", u)
-                self.order.append(u)
-                progress = True
+                for c in sorted(classes):
+                    if c in self.known or c in asked or len(asked) >= max_oracle:
+                        continue
+                    asked.add(c)
+                    v = oracle(c)
+                    if v is not None:
+                        self.known[c] = cst(v)
+                        self.order.append(c)
+                        self.oracle_cells.append(c)
+                        added = True
+                if added:
+                    break
+            if not added:
+                return
 
     def failed_checks(self):
         return [(self.polys[i][0], self.polys[i][1]) for i, u in enumerate(self.used) if u and u[0] == "check" and u[1]]
@@ -575,7 +608,7 @@ def cells_of(system):
     return [c for c in cells if c[0] in "ai"]
 
 
-def forge(run, ob, system, A, want, names, op, params, ins, k, seeds=(None, 11, 12)):
+def forge(run, ob, system, A, want, names, op, params, ins, k, seeds=(None, 11, 12), input_sets=None, perturbs=((True, 0), (True, 1), (True, 2), (False, 0)), pr=None):
     """Look for a real assignment of the extracted system whose outputs are not the specified ones and replay
     it on the real MockProver. Returns True when a VIOLATION was recorded."""
     from . import cengine
@@ -583,12 +616,27 @@ def forge(run, ob, system, A, want, names, op, params, ins, k, seeds=(None, 11, 
     in_cls = [system.cls(c) for c in system.ins]
     out_cls = [system.cls(c) for c in system.outs]
     hon_in = [int(x["value"], 16) for x in system.io if x["dir"] == "in"]
-    for sd in seeds:
-        rnd = random.Random(sd)
-        vals = hon_in if sd is None else [rnd.randrange(P) for _ in in_cls]
+    if input_sets is None:
+        input_sets = []
+        for sd in seeds:
+            rnd = random.Random(sd)
+            input_sets.append(hon_in if sd is None else [rnd.randrange(P) for _ in in_cls])
+    for vals in input_sets:
         env_cls = {c: v for c, v in zip(in_cls, vals)}
-        for perturb, skip in ((True, 0), (True, 1), (True, 2), (False, 0)):
-            assign, free = concrete_assignment(system, env_cls, honest, perturb=perturb, rnd=random.Random(7), skip=skip)
+        for perturb, skip in ((("forms", 0),) if pr is not None else ()) + tuple(perturbs):
+            if perturb == "forms":
+                # every derived cell evaluated from its form at the chosen inputs; cells the propagation did not
+                # derive (hints, limbs of control values) keep their honest value
+                env0 = {n: v for n, v in zip(names, vals)}
+                memo = {}
+                assign, free = dict(env_cls), []
+                try:
+                    for c, f in pr.known.items():
+                        assign[c] = A.eval(f, env0, memo)
+                except KeyError:
+                    continue
+            else:
+                assign, free = concrete_assignment(system, env_cls, honest, perturb=perturb, rnd=random.Random(7), skip=skip)
             for c in system.used_classes():
                 assign.setdefault(c, honest.get(c, 0))
             if system.check_exact(assign):
@@ -762,6 +810,7 @@ def poseidon_rows(system, pr):
         # cells raised to the 5th power on their own (partial rounds): one round each
         p5 = {k[0] for i in idx for k in pr.polys[i][2] if len(k) == 5 and len(set(k)) == 1}
         out.append(dict(row=row, polys=idx, ins=in_cls, outs=[c for _, c in outs], aux=aux, full=full,
+                        in_cells=[f"a{col}_{row}" for col, _ in ins], out_cells=[f"a{col}_{row + 1}" for col, _ in outs],
                         rounds=1 if full else len(p5)))
     return out
 
@@ -936,3 +985,358 @@ def replay_cpu(payload):
     tb = spec_outputs(NumDom(prm), op, params, vals)
     info = dict(real=hexes(real), textbook=hexes(tb))
     return (1 if real != tb else 0), info
+
+
+# ------------------------------------------------------------------------------------------------ control logic by the solver
+class ControlOracle:
+    """Solver-decided facts about CONTROL cells (lengths, flags, quotient/remainder hints, range-checked limbs)
+    that unique-solution propagation cannot derive. A query is `Slice and pins => fact` where Slice is the set
+    of extracted constraints (gate rows and lookups, engine-C encoding csmt.Enc) in the connected component of
+    the cell once (a) cells already known to be constants are pinned to their value and (b) every constraint
+    touching a data cell (a cell with a non-constant derived form, or a cell of an S-box row) is DROPPED.
+    Dropping constraints only weakens the hypothesis, so `unsat` of the negation is sound for the full system."""
+
+    def __init__(self, system, pr, ob=None, timeout=30):
+        self.s, self.pr, self.ob, self.timeout = system, pr, ob, timeout
+        d = system.d
+        self.cons = []   # (kind, payload, classes)
+        sbox_rows = {g["row"] for g in d["gates"] if any(len(cells) >= 3 for _, cells in g["poly"])}
+        self.data0 = set()
+        for g in d["gates"]:
+            cl = {system.cls(c) for _, cells in g["poly"] for c in cells}
+            cl = {c for c in cl if c not in system.const}
+            if g["row"] in sbox_rows and (any(len(cells) >= 3 for _, cells in g["poly"]) or len(cl) > 4):
+                self.data0 |= cl
+                continue
+            self.cons.append(("gate", g, cl))
+        for li, lk in enumerate(d["lookups"]):
+            for inp in lk["inputs"]:
+                cl = {system.cls(c) for p in inp["exprs"] for _, cells in p for c in cells}
+                cl = {c for c in cl if c not in system.const}
+                self.cons.append(("lookup", (li, inp), cl))
+        self.queries = 0
+        self.time_s = 0.0
+
+    def _free(self, cl):
+        """classes of a constraint that are neither pinned constants nor data; None when it touches data"""
+        out = set()
+        for c in cl:
+            f = self.pr.known.get(c)
+            if f is not None:
+                if const_of(f) is None:
+                    return None
+                continue
+            if c in self.data0:
+                return None
+            out.add(c)
+        return out
+
+    def slice(self, c):
+        live = []
+        for kind, pl, cl in self.cons:
+            fr = self._free(cl)
+            if fr is not None:
+                live.append((kind, pl, cl, fr))
+        comp = {c}
+        changed = True
+        while changed:
+            changed = False
+            for kind, pl, cl, fr in live:
+                if fr & comp and not fr <= comp:
+                    comp |= fr
+                    changed = True
+        sel = [(kind, pl, cl) for kind, pl, cl, fr in live if fr & comp]
+        return comp, sel
+
+    def encode(self, c):
+        comp, sel = self.slice(c)
+        d = self.s.d
+        d2 = dict(d)
+        d2["gates"] = [pl for kind, pl, cl in sel if kind == "gate"]
+        lks = {}
+        for kind, pl, cl in sel:
+            if kind == "lookup":
+                lks.setdefault(pl[0], []).append(pl[1])
+        d2["lookups"] = [dict(d["lookups"][li], inputs=inps) for li, inps in sorted(lks.items())]
+        s2 = csmt.System(d2, P)
+        e = csmt.Enc(s2)
+        e.encode(False)
+        pins = []
+        for kind, pl, cl in sel:
+            for x in cl:
+                f = self.pr.known.get(x)
+                if f is not None:
+                    pins.append(f"(assert (= {e.v(x)} {const_of(f)}))")
+        return e, sorted(set(pins)), len(sel)
+
+    def ask(self, c, pred):
+        """is `pred(e, atom of c)` implied? returns True / False (sat or undecided)"""
+        e, pins, n = self.encode(c)
+        a = e.v(c)
+        r = solvers.solve(e.text(pins + [f"(assert (not {pred(a)}))"]), timeout=self.timeout)
+        self.queries += 1
+        self.time_s += r.time_s
+        if self.ob is not None:
+            self.ob.queries += 1
+            self.ob.solver_s += r.time_s
+        return r.status == "unsat", r, n
+
+    def determined(self, c, v):
+        ok, r, n = self.ask(c, lambda a: f"(= {a} {v})")
+        return ok
+
+
+# ------------------------------------------------------------------------------------------------ variable-length gadget
+FUNCS_VAR = ["midnight_circuits::hash::poseidon::VarLenPoseidonGadget::poseidon_varlen", "VarLenPoseidonGadget::cond_update",
+             "VarLenPoseidonGadget::constrain_last_chunk", "VarHashInstructions::varhash", "VectorGadget::assign_with_filler",
+             "NativeGadget::rem", "NativeGadget::is_equal_to_fixed", "NativeGadget::select"] + FUNCS_CHIP
+
+
+def payload_range(M, L, rate):
+    pad = (rate - L % rate) % rate
+    return M - L - pad, M - pad
+
+
+def varhash_family(run, M, k=10, timeout=30, rnd=None):
+    """VarHashInstructions::varhash over AssignedVector<_, _, M, RATE>: instance = (buffer[0..M], len, digest).
+    Claim, for every assignment: len <= M, and digest = Hash(payload) where payload is the len cells of the
+    buffer at the documented position (so in particular independent of the filler cells). Decided as
+      dom:        Sys => len <= M                                  (solver, engine-C encoding of the control slice)
+      len = L:    Sys and len = L => digest = Hash_L(payload)      (L = 0..M; control cells proved constant by the
+                  solver under len = L, data path by atom propagation, digest compared with the specification)
+    on one constraint system (the structure extracted for every L must be identical)."""
+    from . import cengine
+    rnd = rnd or random.Random(5)
+    base = f"C07/C/chip/varhash[M={M}]"
+    systems = {}
+    ob_dom = core.Ob(f"{base}/dom", ENGINE, f"constraints of varhash imply len <= {M} (the case split over len = 0..{M} is exhaustive), and the structure does not depend on the length of the witness",
+                     functions=FUNCS_VAR, bound=f"MAX_LEN={M} k={k}", key="poseidon/varhash:dom")
+    run.add(ob_dom)
+    cases = []
+    for L in range(M + 1):
+        ob = core.Ob(f"{base}/len={L}", ENGINE, f"constraints of varhash and len = {L} imply digest = fixed-length Poseidon hash of the {L} payload cells, for every assignment (independent of the filler cells)",
+                     functions=FUNCS_VAR, bound=f"MAX_LEN={M} len={L} k={k}", key="poseidon/varhash")
+        run.add(ob)
+        cases.append(ob)
+    hashes = set()
+    for L in range(M + 1):
+        params = {"max": M, "len": L}
+        ins = [rnd.randrange(P) for _ in range(L)]
+        try:
+            systems[L] = (cengine.extract("poseidon", "varhash", params, ins, k), params, ins)
+        except cengine.ExtractPanic as ex:
+            cases[L].key += ":honest-panics"
+            cases[L].set(VIOLATION, f"the real synthesis panics on admissible inputs: {ex}",
+                         replay=run.write_replay(cases[L], dict(kind="honest-panics", engine_part="C", cx=cengine.cx_args("poseidon", "varhash", params, ins, k))))
+            continue
+        except cengine.ExtractError as ex:
+            cases[L].set(INCONCLUSIVE, f"extraction failed: {ex}")
+            continue
+        hashes.add(cengine.structure_hash(systems[L][0]))
+    if len(systems) != M + 1:
+        ob_dom.set(INCONCLUSIVE, "not every length could be extracted")
+        return
+    # ---- dom
+    system, params, ins = systems[M]
+    prm = Params(system.d["extra"]["constants"])
+    try:
+        A = Atoms()
+        pr = Propagator(system, A)
+        for i, c in enumerate(system.ins[:M]):
+            pr.known[system.cls(c)] = var(f"b{i}")
+        lenc = system.cls(system.ins[M])
+        orc = ControlOracle(system, pr, ob_dom, timeout)
+        ok, r, n = orc.ask(lenc, lambda a: f"(<= {a} {M})")
+        # vacuity: the honest assignment satisfies the slice
+        e, pins, _ = orc.encode(lenc)
+        honest = system.honest_assign()
+        hp = [f"(assert (= {nm} {honest.get(c, 0)}))" for c, nm in e.vars.items()]
+        rv = solvers.solve(e.text(pins + hp), timeout=timeout)
+        ob_dom.queries += 1
+        ob_dom.vacuity = rv.status == "sat"
+        ob_dom.solver = r.solver
+        ob_dom.sample = dict(slice_constraints=n, structure_hashes=len(hashes))
+        if len(hashes) != 1:
+            ob_dom.set(INCONCLUSIVE, f"the emitted structure depends on the witness length ({len(hashes)} different structures): the per-length cases do not combine")
+        elif ok and ob_dom.vacuity:
+            ob_dom.set(HOLDS)
+        elif r.status == "sat":
+            ob_dom.set(INCONCLUSIVE, f"control slice admits len > {M} (model of the slice only; not replayed): {r.status}")
+        else:
+            ob_dom.set(INCONCLUSIVE, f"solver: {r.status}, vacuity twin {rv.status}")
+    except (Untranslatable, NotImplementedError) as ex:
+        ob_dom.set(INCONCLUSIVE, f"untranslatable: {ex}")
+    # ---- cases
+    for L in range(M + 1):
+        ob = cases[L]
+        system, params, ins = systems[L]
+        d = system.d
+        try:
+            honest = system.honest_assign()
+        except AssertionError as ex:
+            ob.set(INCONCLUSIVE, f"honest run inconsistent: {ex}")
+            continue
+        if not d["honest_verify"]:
+            ob.key += ":honest-rejected"
+            ob.set(VIOLATION, f"real MockProver rejects the honest witness of varhash M={M} len={L}",
+                   replay=run.write_replay(ob, dict(kind="honest-rejected", engine_part="C", cx=cengine.cx_args("poseidon", "varhash", params, ins, k))))
+            continue
+        if system.check_exact(honest):
+            ob.set(INCONCLUSIVE, "extractor/encoder disagree with MockProver on the honest run")
+            continue
+        try:
+            A = Atoms()
+            pr = Propagator(system, A)
+            names = [f"b{i}" for i in range(M)]
+            for c, nm in zip(system.ins[:M], names):
+                pr.known[system.cls(c)] = var(nm)
+            lenc = system.cls(system.ins[M])
+            pr.known[lenc] = cst(L)
+            orc = ControlOracle(system, pr, ob, timeout)
+            # candidates for the solver: control cells only (never a cell of an S-box row; small honest value:
+            # flags, lengths, quotients, limbs), each asked once
+            def oracle(c, honest=honest, orc=orc):
+                if c not in honest or c in orc.data0 or honest[c] >= (1 << 32) or orc.queries >= 200:
+                    return None
+                return honest[c] if orc.determined(c, honest[c]) else None
+            pr.run(oracle=oracle, max_oracle=100000)
+            lo, hi = payload_range(M, L, prm.rate)
+            D = FormDom(A, prm)
+            want = sponge_hash_spec(D, [var(nm) for nm in names[lo:hi]])
+            # the class of the defect "the trailing filler cells of the last block are absorbed with the payload"
+            st0 = [cst(0)] * prm.rate + [cst(L)] + [cst(0)] * (prm.t - prm.rate - 1)
+            blocks = [var(nm) for nm in names[lo:M]]
+            stv = st0
+            for b in range(0, len(blocks), prm.rate):
+                blk = blocks[b:b + prm.rate]
+                stv = D.perm([add(stv[i], blk[i]) if i < len(blk) else stv[i] for i in range(prm.t)])
+            variant = [stv[0]]
+        except (Untranslatable, NotImplementedError) as ex:
+            ob.set(INCONCLUSIVE, f"untranslatable: {ex}")
+            continue
+        got = pr.known.get(system.cls(system.outs[0]))
+        ob.sample = dict(M=M, L=L, oracle_cells=pr.oracle_cells, oracle_queries=orc.queries, atoms=len(A.tab))
+        hon_in = [int(x["value"], 16) for x in system.io if x["dir"] == "in"]
+        filler_pos = [i for i in range(M) if not (lo <= i < hi)]
+
+        def input_sets():
+            yield list(hon_in)
+            for sd in (21, 22):
+                r2 = random.Random(sd)
+                v = list(hon_in)
+                for i in filler_pos:
+                    v[i] = r2.randrange(1, P)
+                yield v
+            r2 = random.Random(23)
+            yield [r2.randrange(1, P) for _ in range(M)] + [L]
+        want_full = want + []   # forms over b0..; the length is the constant L (not a variable)
+        env_names = names + ["len"]
+
+        def do_forge(suffix):
+            w = [dict(f) for f in want]
+            if forge(run, ob, system, A, w, env_names, "varhash", params, ins, k, input_sets=list(input_sets()), perturbs=((False, 0),), pr=pr):
+                ob.key = "poseidon/varhash" + suffix
+                # the same thing through the honest API: assign_with_filler with a non-zero filler
+                return True
+            return False
+        if got is None:
+            if not do_forge(":output-not-determined"):
+                ob.set(INCONCLUSIVE, f"digest not determined by propagation + solver-decided control cells (oracle cells {pr.oracle_cells}); no forged assignment replayed")
+            continue
+        st, diff = compare_forms(ob, [got], want, timeout)
+        if st == "unsat":
+            ob.set(HOLDS)
+        elif st == "sat":
+            is_variant = bool(filler_pos) and fkey(got) == fkey(variant[0]) and fkey(variant[0]) != fkey(want[0])
+            if not do_forge(":trailing-filler-absorbed" if is_variant else ":output-differs"):
+                ob.set(INCONCLUSIVE, f"derived digest differs from the specification ({len(diff)} coefficients) but no forged assignment replayed")
+            elif is_variant:
+                ob.detail = (f"varhash MAX_LEN={M} len={L}: the digest absorbs the filler cell(s) {[f'buffer[{i}]' for i in range(hi, M)]} after the payload (exactly the variant 'last block completed with the buffer's trailing cells'); "
+                             + ob.detail)
+        else:
+            ob.set(INCONCLUSIVE, f"solver: {st}")
+
+
+# ------------------------------------------------------------------------------------------------ full rounds as plain engine-C queries
+def chip_rows_lia(run, base, ctx, timeout=60):
+    """The full-round rows once more, as plain engine-C queries (csmt.Enc: cells Int in [0,p), products an
+    uninterpreted function with field lemmas and monomial normalisation): Sys_row => next cells =
+    MDS x (cells^5) + next round constants, decided by the solver for all assignments (a non-ground query;
+    the partial-round batches do not finish in this formulation: 120 s timeout on both solvers, measured)."""
+    from functools import reduce
+    system, pr0, prm = ctx["system"], ctx["prop"], ctx["prm"]
+    rows = poseidon_rows(system, pr0)
+    d = system.d
+    total = prm.rf + prm.rp
+    a = 0
+    for rw in rows:
+        b = a + rw["rounds"]
+        if not rw["full"] or len(rw["ins"]) != prm.t or len(rw["outs"]) != prm.t:
+            a = b
+            continue
+        ob = core.Ob(f"{base}/row{rw['row']}:full-round:round{a}:lia", ENGINE,
+                     "engine-C query (integers mod p, uninterpreted field product): the row's constraints imply next state cells = MDS x (state cells)^5 + next round constants, for every assignment",
+                     functions=["PoseidonChip::configure(full_round_gate)", "PoseidonChip::full_round", "PoseidonChip::assign_constants_full"],
+                     bound="all assignments of the row's cells", key=f"{base}/row:full:lia")
+        run.add(ob)
+        try:
+            d2 = dict(d)
+            d2["gates"] = [g for g in d["gates"] if g["row"] == rw["row"]]
+            d2["lookups"] = []
+            d2["copies"] = []
+            s2 = csmt.System(d2, P)
+            e = csmt.Enc(s2)
+            e.extra = {}
+            e.encode(False)
+            I = [e.v(c) for c in rw["in_cells"]]     # the sub-system has no copy constraints: cells by name
+            O = [e.v(c) for c in rw["out_cells"]]
+            sb = [reduce(e.fmul, [x] * 5) for x in I]
+            nrc = prm.rc[b] if b < total else [0] * prm.t
+            st = [e.define_mod([(prm.mds[i][j], sb[j]) for j in range(prm.t)], nrc[i]) for i in range(prm.t)]
+            spec = "(and " + " ".join(f"(= {O[i]} {st[i]})" for i in range(prm.t)) + ")"
+            e.assoc_lemmas()
+        except NotImplementedError as ex:
+            ob.set(INCONCLUSIVE, f"untranslatable: {ex}")
+            a = b
+            continue
+        names = sorted(set(e.vars.values()))
+        # vacuity twin: the honest cells of this row satisfy encoding and specification
+        hon = {n: system.honest.get(c, 0) for c, n in e.vars.items()}
+        hx = e.exact_atoms(hon)
+        rv = solvers.solve(e.text([f"(assert (= {n} {v}))" for n, v in hx.items()] + [f"(assert {spec})"]), timeout=timeout)
+        ob.queries += 1
+        ob.vacuity = rv.status == "sat"
+        status = None
+        for rnd_ in range(8):
+            atoms = names + [it[1] for it in e.order]
+            r = solvers.solve(e.text([f"(assert (not {spec}))"]), timeout=timeout, get_values=atoms)
+            ob.queries += 1
+            ob.solver_s += r.time_s
+            ob.solver = r.solver or ob.solver
+            if r.status != "sat":
+                status = r.status
+                break
+            m = r.model
+            assign = {n: m.get(n, 0) % P for n in names}
+            exact = e.exact_atoms(assign)
+            wrong = [it for it in e.order if it[0] == "mul" and m.get(it[1]) is not None and m[it[1]] != exact[it[1]]]
+            if not wrong:
+                status = "sat"
+                break
+            for _, t_, x, y in wrong[:40]:
+                vx = exact[x] if not isinstance(x, int) else x
+                vy = exact[y] if not isinstance(y, int) else y
+                q1 = e.fresh("q", 0, P)
+                e.lines.append(f"(assert (=> (= {x} {vx}) (= {t_} (- (* {vx} {y}) (* {P} {q1})))))")
+                if x != y:
+                    q2 = e.fresh("q", 0, P)
+                    e.lines.append(f"(assert (=> (= {y} {vy}) (= {t_} (- (* {vy} {x}) (* {P} {q2})))))")
+        nf = [o for o in run.obs if o.id.startswith(f"{base}/row{rw['row']}:full-round:rounds")]
+        if status == "unsat" and ob.vacuity:
+            ob.set(HOLDS)
+        elif nf and nf[0].status == VIOLATION and nf[0].replay:
+            ob.key += ":row-differs"
+            ob.set(VIOLATION, f"engine-C query on this row: {status}; the normal-form obligation of the same row is violated, replay shared", replay=nf[0].replay)
+        else:
+            ob.set(INCONCLUSIVE, f"solver: {status} (vacuity twin {rv.status})")
+        a = b
